@@ -161,6 +161,11 @@ func worldUDP(w *World) {
 				mu.Lock()
 				backendSent[string(rep)]++
 				mu.Unlock()
+				if len(p) >= 4 && binary.BigEndian.Uint32(p[0:4])&0xFFFF0000 == 0xC0E00000 {
+					// the long conversation's backend thinks for a while before it answers
+					go func() { time.Sleep(400 * time.Millisecond); bconn.WriteToUDP(rep, addr) }()
+					continue
+				}
 				bconn.WriteToUDP(rep, addr)
 			}
 		}
@@ -387,8 +392,80 @@ func worldUDP(w *World) {
 		wg2.Wait()
 	}
 
+	// a long conversation: one user keeps talking to a backend that takes its time, for longer than any idle timer on
+	// the path (a request every few hundred milliseconds for 40-70 s). No fault, light load: every reply arrives.
+	var longSent [][]byte
+	var longAt []time.Duration
+	longGot := map[string]int{}
+	if !w.In.Faults && w.KnobBool("long_conversation", 25) {
+		w.Probe("udp.long_conversation")
+		lr := simnet.NewRand(w.In.Seed, "udplong")
+		conn, err := simnet.ListenUDP("udp", &net.UDPAddr{IP: net.ParseIP("10.0.3.90")})
+		if err != nil {
+			w.Fail("user socket: %v", err)
+		}
+		stop := make(chan struct{})
+		var lwg sync.WaitGroup
+		lwg.Add(1)
+		w.UserN.Go(func() {
+			defer lwg.Done()
+			buf := make([]byte, 65536)
+			for {
+				conn.SetReadDeadline(time.Now().Add(500 * time.Millisecond))
+				n, _, err := conn.ReadFromUDP(buf)
+				if err != nil {
+					select {
+					case <-stop:
+						return
+					default:
+						continue
+					}
+				}
+				mu.Lock()
+				longGot[string(buf[:n])]++
+				mu.Unlock()
+			}
+		})
+		total := time.Duration(lr.Range(40, 70)) * time.Second
+		t0 := w.Net.Now()
+		for i := 0; w.Net.Now()-t0 < total; i++ {
+			p := genStream(lr, 16+lr.Intn(100), lr.Intn(4))
+			binary.BigEndian.PutUint32(p[0:4], 0xC0E00000)
+			binary.BigEndian.PutUint32(p[4:8], uint32(i))
+			mu.Lock()
+			longSent = append(longSent, p)
+			longAt = append(longAt, w.Net.Now())
+			mu.Unlock()
+			conn.WriteToUDP(p, pubAddr)
+			time.Sleep(time.Duration(lr.Range(200, 450)) * time.Millisecond)
+		}
+		time.Sleep(8 * time.Second)
+		close(stop)
+		lwg.Wait()
+		conn.Close()
+	}
+
 	mu.Lock()
 	defer mu.Unlock()
+	if len(longSent) > 0 {
+		w.Check("C03.long-conversation")
+		missing := 0
+		first := -1
+		for i, p := range longSent {
+			if dialFaultAt >= 0 && longAt[i] > dialFaultAt-time.Second && longAt[i] < dialFaultAt+time.Second {
+				continue // sent around the injected dial failure: may be lost
+			}
+			if longGot[string(mkReply(p))] == 0 {
+				missing++
+				if first < 0 {
+					first = i
+				}
+			}
+		}
+		if missing > 0 {
+			viol("delivery", "reply-lost-in-long-conversation", "one user sent %d small datagrams over %d s to a backend that answers each after 400 ms; %d replies never arrived, the first one to request %d (sudp=%v mux=%v)", len(longSent), len(longSent)/3, missing, first, sudp, tcpMux)
+		}
+	}
 	// 1. what the backend got is what was really delivered to the public endpoint: never corrupted, truncated, merged, split, duplicated
 	w.Check("C03.backend-payloads")
 	for p, n := range backendGot {
